@@ -1,6 +1,6 @@
 //! C04: routing order. Generated applications (0..4 host sub-apps x 0..6 routes each, plus default), every
 //! handler answering with its own id, one request per connection through the real `client_handler`.
-use crate::c01::{emit_conn, sub_spec};
+use crate::c01::{emit_conn, sub_spec, tokio_conn_cases, TOKIO_EVERY};
 use crate::common::*;
 
 const PATTERNS: &[&str] = &[
@@ -17,7 +17,9 @@ const HOSTS: &[&str] = &["", "example.com", "a.example.com", "a.b.example.com", 
 pub fn gen(out: &mut Out, thorough: bool, seed: u64) {
     let mut rng = Rng::new(seed ^ 0xC04);
     let napps = if thorough { 20_000 } else { 1_200 };
-    for _ in 0..napps {
+    for app_i in 0..napps {
+        // every 8th application (quick) also runs on the tokio runtime, all of its HTTP requests
+        TOKIO_EVERY.with(|e| e.set(if app_i % 8 == 0 && (thorough || app_i < 1200) && app_i < 2400 { 1 } else { 0 }));
         let mut id = 0;
         let mut subs: Vec<String> = Vec::new();
         let nsub = rng.below(5);
@@ -65,4 +67,5 @@ pub fn gen(out: &mut Out, thorough: bool, seed: u64) {
             emit_conn(out, &cfg, false, &[format!("d{}", hex(&bytes))], ("127.0.0.1", 40000), &bytes, if ws { "ws" } else { "http" }, nsub >= 1);
         }
     }
+    tokio_conn_cases(out);
 }
